@@ -82,6 +82,17 @@ func (p *bprover) lenOf(x ssa.Value) lt {
 	if ms, ok := x.(*ssa.MakeSlice); ok {
 		return p.lin(ms.Len)
 	}
+	// len(s[:h]) is h, len(s[k:h]) is h-k for a constant k: name the bound itself, so that what is known about it
+	// (a phi, a comparison) applies to the length directly
+	if sl, ok := x.(*ssa.Slice); ok && sl.High != nil {
+		if sl.Low == nil {
+			return p.lin(sl.High)
+		}
+		if k, ok := constInt(sl.Low); ok && k >= 0 {
+			h := p.lin(sl.High)
+			return lt{h.n, h.k - k}
+		}
+	}
 	if c, isC := x.(*ssa.Const); isC {
 		if s, ok := constString(c); ok {
 			return lt{"0", int64(len(s))}
@@ -2192,7 +2203,11 @@ func (c *C) proveSite(p *bprover, in ssa.Instruction) (bool, string) {
 		if x.High != nil {
 			hi = p.lin(x.High)
 			if !p.ProveLE(hi, up, 0, in) {
-				return false, "cannot show high bound " + canon(x.High) + " <= len(" + canon(x.X) + ")"
+				// a slice may be re-sliced up to its capacity: s[:n] with n <= cap(s) is in range whatever len(s) is
+				_, isSliceT := x.X.Type().Underlying().(*types.Slice)
+				if !(isSliceT && p.capAtLeast(x.X, hi, in, 0)) {
+					return false, "cannot show high bound " + canon(x.High) + " <= len(" + canon(x.X) + ")"
+				}
 			}
 			if x.Low == nil && isSignedInt(x.High.Type()) && !p.ProveLE(zero, hi, 0, in) {
 				return false, "cannot show high bound " + canon(x.High) + " >= 0"
@@ -3616,4 +3631,27 @@ func thinLenGetter(fn *ssa.Function) (string, bool) {
 		}
 	}
 	return field, field != ""
+}
+
+// capAtLeast: the capacity of slice x is at least h at instruction `at`: make([]T, l, c) has capacity c, append never
+// returns less capacity than its first operand has, and a slice is never longer than its capacity.
+func (p *bprover) capAtLeast(x ssa.Value, h lt, at ssa.Instruction, depth int) bool {
+	if depth > 4 {
+		return false
+	}
+	switch y := x.(type) {
+	case *ssa.MakeSlice:
+		return p.ProveLE(h, p.lin(y.Cap), 0, at)
+	case *ssa.Call:
+		if ap, ok := isAppend(y); ok {
+			return p.capAtLeast(ap.Call.Args[0], h, at, depth+1) || p.ProveLE(h, p.lenOf(y), 0, at)
+		}
+	case *ssa.Slice:
+		if y.Max == nil && (y.Low == nil || isZeroConst(y.Low)) {
+			if _, isSl := y.X.Type().Underlying().(*types.Slice); isSl {
+				return p.capAtLeast(y.X, h, at, depth+1)
+			}
+		}
+	}
+	return p.ProveLE(h, p.lenOf(x), 0, at)
 }
